@@ -16,6 +16,7 @@ Grand-canonical simulations also replace a table entry under its existing name i
 is falsy (empty) until its first decision.
 Every other simulation registers new classes under the user components' names after the first rebuild and rebuilds
 again: instances of the classes registered at that moment must come out.
+The user's classes are registered under names of the user's choosing, not their __name__.
 """
 from __future__ import annotations
 
@@ -69,6 +70,12 @@ class Logged:
 RESULTS = {"True": True, "1": 1, "str": "x", "np.True_": np.True_, "list": [0], "0": 0, "None": None, "empty-list": [], "np.False_": np.False_, "0.0": 0.0, "empty-str": ""}
 
 
+# the names the user's classes are registered under (register_class(cls, name)) and write into their dictionaries: a
+# registered name is the user's choice and need not be the class's __name__
+MOVE_NAME = "user.move/v1"
+CRIT_NAME = "user.criteria/v1"
+
+
 class UserMove(Logged):
     """Implements only the protocol.  behaviour: displace | cell | insert | noop."""
 
@@ -108,7 +115,7 @@ class UserMove(Logged):
         self.cell_notes.append(np.array(new_cell, dtype=float))
 
     def to_dict(self):
-        return {"name": "UserMove", "kwargs": {"behaviour": self.behaviour, "result": self.result, "tag": self.tag}}
+        return {"name": MOVE_NAME, "kwargs": {"behaviour": self.behaviour, "result": self.result, "tag": self.tag}}
 
     @classmethod
     def from_dict(cls, data):
@@ -144,7 +151,7 @@ class UserCriteria(Logged):
         return self.last
 
     def to_dict(self):
-        return {"name": "UserCriteria", "kwargs": {"schedule": self.schedule, "tag": self.tag}}
+        return {"name": CRIT_NAME, "kwargs": {"schedule": self.schedule, "tag": self.tag}}
 
     @classmethod
     def from_dict(cls, data):
@@ -185,8 +192,8 @@ def run(spec):
     from quansino.registry import get_class, register_class
     from qv import sims
 
-    register_class(UserMove, "UserMove")
-    register_class(UserCriteria, "UserCriteria")
+    register_class(UserMove, MOVE_NAME)
+    register_class(UserCriteria, CRIT_NAME)
     rec = Rec(spec["name"])
     driver = spec["driver"]
     rng = rng_for("C20", spec["seed"], spec["name"])
@@ -338,9 +345,9 @@ def run(spec):
             rec.count("roundtrips")
             for name, mv, crit, *_ in users:
                 md = data.get("moves", {}).get(name, {}).get("kwargs", {})
-                if md.get("move", {}).get("name") != "UserMove" or md.get("move", {}).get("kwargs", {}).get("tag") != mv.tag:
+                if md.get("move", {}).get("name") != MOVE_NAME or md.get("move", {}).get("kwargs", {}).get("tag") != mv.tag:
                     rec.viol(f"C20/not-serialized-with-simulation/{driver}", f"the bare move '{name}' is missing from the simulation's dictionary", {**wit0, "entry": md})
-                if isinstance(crit, UserCriteria) and md.get("criteria", {}).get("name") != "UserCriteria":
+                if isinstance(crit, UserCriteria) and md.get("criteria", {}).get("name") != CRIT_NAME:
                     rec.viol(f"C20/not-serialized-with-simulation/{driver}", f"the bare criteria of '{name}' is missing from the simulation's dictionary", {**wit0, "entry": md})
             mc2 = get_class(data["name"]).from_dict(data)
             for name, mv, crit, *_ in users:
@@ -354,8 +361,8 @@ def run(spec):
             if i % 2 == 0:
                 NewMove = type("UserMove", (UserMove,), {"generation": i + 1})
                 NewCriteria = type("UserCriteria", (UserCriteria,), {"generation": i + 1})
-                register_class(NewMove, "UserMove")
-                register_class(NewCriteria, "UserCriteria")
+                register_class(NewMove, MOVE_NAME)
+                register_class(NewCriteria, CRIT_NAME)
                 try:
                     mc3 = get_class(data["name"]).from_dict(decode(encode(mc.to_dict())))
                     rec.count("rebuilds_after_reregistration")
@@ -366,8 +373,8 @@ def run(spec):
                         elif isinstance(crit, UserCriteria) and type(st3.criteria) is not NewCriteria:
                             rec.viol(f"C20/rebuilt-with-a-class-no-longer-registered/{driver}", f"after another class was registered under the name 'UserCriteria', the bare criteria of '{name}' was rebuilt with the old class", wit0)
                 finally:
-                    register_class(UserMove, "UserMove")
-                    register_class(UserCriteria, "UserCriteria")
+                    register_class(UserMove, MOVE_NAME)
+                    register_class(UserCriteria, CRIT_NAME)
         except Exception as ex:  # noqa: BLE001
             rec.viol(f"C20/serialization-raised/{driver}/{type(ex).__name__}", f"serializing / rebuilding a simulation with bare components raised {type(ex).__name__}: {ex}"[:300], wit0)
         # attribute discipline
